@@ -50,6 +50,15 @@ RULE = ("exhaustive grid of garbage prefixes (creation order x relation x drop o
         "non-trivial = the specification contains at least one relation; distinct by case text")
 
 
+def extra_obligations():
+    """Second tie by translation, shared with C13 (harness/translate/sg_translate.py, Model/SymbolGraphTable.lean): the
+    container-operation tables of the SymbolGraph methods are regenerated from /repo's CURRENT source and the kernel re-checks
+    that they equal the model's tables, whose interpreters are proved to be the model functions the theorems of this property
+    speak about (remove_node's purge of the relation index and of the instance index, add_node, ensure_wrapped_instance). A changed table is searched for a concrete failing history by this property's own correspondence."""
+    from props.c13 import extra_obligations as sg_obligations
+    return sg_obligations()
+
+
 def budget(tier: str) -> int:
     return 3000 if tier == "quick" else 80000
 
